@@ -79,7 +79,7 @@ void DynamicConstructorDataGlobal::reloadPoints(std::function<int(int)> getNumPo
 
 void DynamicConstructorDataGlobal::clearTesnors(){
     for(auto t = tensors.begin(), p = tensors.before_begin(); t != tensors.end(); t++){
-        if (t->weight >= 0.0){
+        if (t->weight >= 0.0 and not t->loaded.empty()){ // keep the complete tensors, their samples wait for the parents
             tensors.erase_after(p);
             t = p;
         }else{
@@ -98,6 +98,8 @@ MultiIndexSet DynamicConstructorDataGlobal::getInitialTensors() const{
 }
 
 void DynamicConstructorDataGlobal::addTensor(const int *tensor, std::function<int(int)> getNumPoints, double weight){
+    for(auto const &t : tensors) // a complete tensor kept by clearTesnors() is already tracked
+        if (std::equal(t.tensor.begin(), t.tensor.end(), tensor)) return;
     tensors.emplace_front(TensorData{
                           weight,
                           std::vector<int>(tensor, tensor + num_dimensions),
